@@ -353,13 +353,21 @@ Definition decode (decompress : bytes -> option bytes) (ft : features) (v2 compr
   decode_frame parse_custom decompress ft v2 compression stream.
 
 (* ---- the bounds of C08_alloc / C08_depth (used by the driver as property predicates) ----- *)
-(* 208 bytes of preallocation per input byte (column specs: 104-byte entries capped by the
-   remaining bytes, plus what the entries themselves reserve) and a constant: the 1 MiB body
-   buffer and, on a failing path, one u16-counted vector per nesting level that never gets filled
-   (129 levels x 65535 x 56 bytes).  See docs/C08.md. *)
-Definition ALLOC_K : N := 208.
-Definition ALLOC_C : N := 2 ^ 29.
+(* 2288 bytes of preallocation per input byte: every reservation is `count.min(buf.len() / per)`
+   entries (commits 3ad5892, dba8b0a): 104 bytes per byte for what the elements pay on success, and
+   on a failing path at most 16 bytes per remaining byte at each of the 130 possible nesting levels
+   of the type grammar plus 104 for the column-spec vector; the only constant is the 1 MiB body
+   buffer of read_response_frame (af4e619).  See docs/C08.md. *)
+Definition ALLOC_K : N := 2288.
+Definition ALLOC_C : N := 2 ^ 20.
 Definition alloc_bound (len : N) : N := ALLOC_K * len + ALLOC_C.
 (* 129 levels of the binary grammar + 128 of a custom-type string *)
 Definition DEPTH_LIMIT : N := 257.
 Definition depth_bound : N := DEPTH_LIMIT.
+
+(* the implementation-side predicates, on measurements: the largest single request is a reservation
+   (within the proved bound) or a copy of part of the input; the total of ALL requests - reservations,
+   copies, boxes, error values - is allowed the same amount again.  [len] is already multiplied by the
+   codec's expansion factor (1 / 255 LZ4 / 32 Snappy: both enforced by frame::decompress) *)
+Definition largest_in_proportion (len measured : N) : bool := measured <=? alloc_bound len.
+Definition total_in_proportion (len measured : N) : bool := measured <=? 2 * alloc_bound len.
